@@ -1,19 +1,47 @@
 """Apply a seeded patch to a scratch copy of /repo/coxeter and report which checks fire (beyond known findings).
 
 usage: python3-vt tools/try_patch.py <patch.diff> [C03 C08 ...]     (run from /verif)
+The per-property checks run in parallel; the baseline of the unchanged tree is cached under /verif/scratch/
+(git-ignored) keyed by a digest of /repo/coxeter and /verif/cxa.
 """
+import hashlib
 import importlib
+import json
 import os
 import shutil
 import subprocess
 import sys
 import tempfile
+from concurrent.futures import ProcessPoolExecutor
 
-sys.path.insert(0, os.path.dirname(os.path.dirname(os.path.abspath(__file__))))
+HERE = os.path.dirname(os.path.dirname(os.path.abspath(__file__)))
+sys.path.insert(0, HERE)
 from cxa.index import AnalysisError, Index  # noqa: E402
 from cxa.report import load_known  # noqa: E402
 
 ALL = [f"C{i:02d}" for i in range(1, 21) if i != 7]
+
+
+def _digest():
+    h = hashlib.sha256()
+    for root in ("/repo/coxeter", os.path.join(HERE, "cxa")):
+        for dp, dn, fn in sorted(os.walk(root)):
+            dn[:] = sorted(d for d in dn if d != "__pycache__")
+            for f in sorted(fn):
+                if f.endswith((".py", ".json")):
+                    h.update(f.encode())
+                    h.update(open(os.path.join(dp, f), "rb").read())
+    return h.hexdigest()[:16]
+
+
+def _run(args):
+    p, repo = args
+    mod = importlib.import_module(f"cxa.props.{p.lower()}")
+    try:
+        res = mod.run(Index(repo))
+        return p, [(f.rule, f.key, f.where, f.what) for f in res.findings]
+    except AnalysisError as e:
+        return p, [("ANALYSIS-ERROR", "", "", str(e))]
 
 
 def main():
@@ -27,20 +55,23 @@ def main():
             print("PATCH-FAILED", r.stdout, r.stderr)
             return 2
         known = {f"{k['rule']}|{k['key']}" for k in load_known() if k.get("status") == "known"}
-        fired = {}
-        for p in props:
-            mod = importlib.import_module(f"cxa.props.{p.lower()}")
-            try:
-                base = {f"{f.rule}|{f.key}" for f in mod.run(Index("/repo")).findings}
-                res = mod.run(Index(tmp))
-                new = [f for f in res.findings if f"{f.rule}|{f.key}" not in base and f"{f.rule}|{f.key}" not in known]
+        cache = os.path.join(HERE, "scratch", f"baseline_{_digest()}.json")
+        base = json.load(open(cache)) if os.path.exists(cache) else {}
+        need = [p for p in props if p not in base]
+        with ProcessPoolExecutor(max_workers=16) as ex:
+            for p, fs in ex.map(_run, [(p, "/repo") for p in need]):
+                base[p] = [f"{f[0]}|{f[1]}" for f in fs]
+            if need:
+                os.makedirs(os.path.dirname(cache), exist_ok=True)
+                json.dump(base, open(cache, "w"))
+            fired = {}
+            for p, fs in ex.map(_run, [(p, tmp) for p in props]):
+                new = [f for f in fs if f"{f[0]}|{f[1]}" not in base[p] and f"{f[0]}|{f[1]}" not in known]
                 if new:
                     fired[p] = new
-            except AnalysisError as e:
-                fired[p] = [type("F", (), {"rule": "ANALYSIS-ERROR", "key": "", "where": "", "what": str(e)})()]
         for p, fs in fired.items():
             for f in fs[:4]:
-                print(f"{p} {f.rule} [{f.key}] {f.where}: {f.what[:170]}")
+                print(f"{p} {f[0]} [{f[1]}] {f[2]}: {f[3][:170]}")
         if not fired:
             print("NO CHECK FIRED")
         return 0
